@@ -263,21 +263,25 @@ PROPS = {
                       "(parent first), the table holds exactly the classes yielded; theorem_pre_order_complete / _reachable; and theorem_pre_post_same_set: an exhausted post-order and an "
                       "exhausted pre-order traversal of one root under one sharing policy have yielded the same nodes (up to sharing class) - both exactly the reachable ones. "
                       "is_shared_as: the verdict is the pointwise address comparison of the traces of the two iterators it creates (InternalSharing over a clone "
-                      "of the root, the requested tracker over the root), true only when one trace is exhausted; the zip loop terminates.",
+                      "of the root, the requested tracker over the root), true only when one trace is exhausted; the zip loop terminates. "
+                      "theorem_shared_as_accept_sound: when the pointer-sharing trace is exhausted and every pair agreed, any two reachable nodes of one requested sharing class "
+                      "have one address (accept ==> the requested sharing merges nothing the pointers keep apart), given that the clone is the same handle, that a node's class is a "
+                      "function of its address and that one address has one pair of children.",
         "level_note": "Assumed (R5): the contracts of the two traits — DagLike (as_dag_node is a pure function of the node; the DAG is finite/acyclic) and "
                       "SharingTracker (a table from sharing class to first index). NoSharing, InternalSharing and MaxSharing (for &Node) ARE proved to meet it "
                       "(the entry-API match is rewritten to get/insert, R10; vstd's HashMap model; key-model axioms for PointerId / SharingId / EncodeId), as is EncodeSharing; the Arc/SwapChildren "
                       "variants of MaxSharing are not. Ghost fields `hist` (trace) and `root` are added to PostOrderIter. `for (a, b) in x.zip(y)` is rewritten to the definition of Zip::next (R10). "
-                      "Not decided: that equal traces in is_shared_as "
-                      "mean equal sharing partitions, VerbosePreOrderIter.",
+                      "Not decided: the converse for is_shared_as (equal partitions ==> accepted) and its exit where the requested traversal ends strictly first, "
+                      "VerbosePreOrderIter.",
         "assumptions": [
             "DagLike implementors: as_dag_node deterministic; finite acyclic DAG (rank)",
             "SharingTracker implementors obey the class-table contract (proved for NoSharing, InternalSharing, MaxSharing<&Node>)",
             "Hash/Eq of PointerId and of N::SharingId obey vstd's key model; PointerId::from is a function of the node reference",
             "the tree unfolding of the DAG has at most usize::MAX nodes (precondition of next / is_shared_as)",
             "Clone of a DagLike handle: only call_ensures(D::clone) is known about the clone is_shared_as iterates over",
+            "theorem_shared_as_accept_sound: hypotheses class_by_pointer (one address, one requested class), cong for InternalSharing (one address, one pair of children), clone == same handle",
         ],
-        "not_decided": ["is_shared_as: equal traces <=> equal sharing partitions", "that a given tracker's classes are congruences (hypothesis of the completeness theorem)"],
+        "not_decided": ["is_shared_as: equal sharing partitions ==> accepted (the direction accepted ==> equal partitions is theorem_shared_as_accept_sound, for the exit where the pointer-sharing traversal is exhausted)", "that a given tracker's classes are congruences (hypothesis of the completeness theorem)"],
         "explanation": "",
     },
     "C16": {
